@@ -2,8 +2,8 @@ SPECIFICATION Spec
 CONSTANTS
   Max = 16777216
   Small = 41
-  Backends = {"memory", "localdisk", "diskpacked", "gate", "encrypt", "condgate"}
-  BigBackends = {"memory", "localdisk", "diskpacked", "gate", "encrypt", "condgate"}
+  Backends = {"memory", "localdisk", "diskpacked", "gate", "encrypt", "condgate", "replicagate", "shardgate", "nsgate", "packedgate"}
+  BigBackends = {"memory", "localdisk", "diskpacked", "gate", "encrypt", "condgate", "replicagate", "shardgate", "nsgate", "packedgate"}
   Deviations = {}
 INVARIANTS OnlyAcceptableStored NotifyOnlyAfterStore RejectedLeavesNoTrace AcceptedIsVisible Decided
 PROPERTIES NotifyAfterStoreOrder
